@@ -22,8 +22,9 @@ SPEC = {
         'quote are emitted. gzip: the writer uses GzipFile (gzip container) with the caller\'s level and closes it before '
         'reading the buffer; the reader\'s folded wbits (16 + MAX_WBITS) selects the gzip container. Integer lists: '
         'complement_int_list recognises an omitted range_end by `is None` (0 is a valid bound). Not decided: the args2cmd '
-        'state machine as a whole, int-list round trips and canonical form, zlib behaviour.'),
-    'decided': ['sh-safe class subset of shlex set, no anchors', 'raw emission only when nothing unsafe', 'empty argument branch',
+        'state machine as a whole, int-list round trips and canonical form, zlib behaviour.'
+        ' T18.buf: args2cmd resets the pending-backslash buffer for every argument.'),
+    'decided': ['per-argument buffer reset', 'sh-safe class subset of shlex set, no anchors', 'raw emission only when nothing unsafe', 'empty argument branch',
                 'single-quote splice', 'style dispatch', 'cmd backslash doubling before quotes', 'gzip container agreement',
                 'range_end is None test'],
     'declined': ['args2cmd automaton equivalence with the MS C runtime', 'int list round trip / canonical form'],
